@@ -4,6 +4,7 @@ import (
 	"fmt"
 	"math/big"
 	"sort"
+	"time"
 
 	"github.com/Tom-Johnston/mamba/graph"
 	"pgregory.net/rapid"
@@ -124,6 +125,9 @@ func drainCliques(gr graph.Graph) (cliques [][]int, err error) {
 			}
 		case p := <-fail:
 			return nil, fmt.Errorf("AllMaximalCliques panicked: %v", p)
+		case <-time.After(30 * time.Second):
+			// the producer neither sends nor closes: a consumer ranging over the channel would block for ever
+			return nil, fmt.Errorf("AllMaximalCliques: nothing was sent and the channel was not closed for 30 s after %d cliques (n=%d)", len(cliques), gr.N())
 		}
 	}
 }
